@@ -1,4 +1,5 @@
 import NrDaemon.Lemmas.Proc
+import NrDaemon.Gen.Worker
 /-!
   C11 — shutdown flushes every application and terminates.
 -/
@@ -46,3 +47,13 @@ theorem C11_flush_complete (s : PState) (a : HArgs) (l : List (Cat × Payload)) 
 /-- the final flush harvests every category: the mask it uses has all ten bits -/
 theorem C11_flush_mask : maskAll % 1024 = maskAll ∧ (∀ b ∈ [1, 2, 4, 8, 16, 32, 64, 128, 256, 512], hasBit maskAll b = true) := by
   decide
+
+/-! ## The worker's shutdown sequence (regenerated from cmd/daemon/worker.go: `Gen.Worker`) -/
+
+/-- **C11 (tie: stop accepting, then flush, then return).**  On the termination signal `runWorker` first cancels the
+listener's context (whose goroutine closes the listening socket), then calls `CleanExit`, and does nothing else before it
+returns; the worker listens for SIGTERM (and SIGINT in the foreground). -/
+theorem C11_shutdown_order_tied :
+    Gen.Worker.onSignal = ["cancel", "log.Infof", "p.CleanExit", "log.Infof"] ∧
+    Gen.Worker.onCtxDone = ["list.Close"] ∧
+    Gen.Worker.notified = ["syscall.SIGTERM", "syscall.SIGINT"] := by decide
